@@ -17,7 +17,7 @@ TEXTS = {
   "level": "Decides for all declared amounts x attached funds at once: the decision table of the native-funds check (Ok only in the regions cw20 / coin found and "
            "amounts equal / no coin and amount zero; the search runs over exactly info.funds with predicate coin.denom == asset.denom), that the provide handler applies "
            "it to every declared asset (loop without adaptors or both indices) and the swap handler to the named offer asset, with the transaction's own MessageInfo, "
-           "error propagated, and that the successful check dominates every effect, query and success exit.",
+           "error propagated, and that the successful check dominates every effect, every effectful workspace call and every success exit.",
   "note": BASE_NOTE + " The bank module crediting attached funds before execution is platform semantics.",
   "technique": "MIR control-region decision table + must-pass-through (edge dominance) + argument provenance",
   "engine": "E-STRUCT"},
